@@ -85,7 +85,8 @@ def main(argv=None) -> int:
             print(f"[{prop}] self-test: {st['must_fire_ok']}/{st['must_fire']} must-fire variants reported, "
                   f"{st['silent_ok']}/{st['silent']} behaviour-preserving variants silent"
                   + (f", {st['skipped']} not applicable to this tree" if st.get("skipped") else "")
-                  + (f", undecided: {', '.join(st['undecided'])}" if st.get("undecided") else ""))
+                  + (f", undecided: {', '.join(st['undecided'])}" if st.get("undecided") else "")
+                  + (f", recorded false alarms on rewrites (limitation, see DESIGN 7.6): {', '.join(st['recorded_false_alarms'])}" if st.get("recorded_false_alarms") else ""))
         return code
     if args.cmd == "all":
         src = args.src or default_src_root()
